@@ -291,13 +291,35 @@ class Flow:
         ub = {}
         lk = {}
         for b in fn.blocks:
+            from .pdb import operands
             for i in b.insts:
-                from .pdb import operands
                 for v in operands(i):
                     if v.startswith("%") or (v.startswith("a") and v[1:].isdigit()):
                         ub.setdefault(v, set()).add(b.id)
                 if i.op == "load":
                     lk.setdefault(self.expr(i["ptr"]), set()).add(b.id)
+        # a fact about r stays useful while anything computed from r (casts, compares, arithmetic, phis) is used
+        derived = {}
+        for i in fn.all_insts():
+            if i.op in ("call", "invoke", "load", "store", "alloca", "br", "switch", "ret"):
+                continue
+            for v in operands(i):
+                if v.startswith("%") or (v.startswith("a") and v[1:].isdigit()):
+                    derived.setdefault(v, set()).add(i.ref)
+        closed = {}
+        for r in list(ub):
+            seen = set()
+            st = [r]
+            acc = set()
+            while st:
+                x = st.pop()
+                if x in seen:
+                    continue
+                seen.add(x)
+                acc |= ub.get(x, set())
+                st.extend(derived.get(x, ()))
+            closed[r] = acc
+        ub = closed
         self._useblocks = ub
         self._loadkeys = lk
         esc = set()
